@@ -144,5 +144,25 @@ class Node(ABC):
             for name, value in self._init_kwargs.items()
         }
         result = cls.__new__(cls, *init_args, **init_kwargs)
+
+        # the tree may have been rewritten since this node was created
+        # (a reference to a CONST inside it replaced by the value of
+        # that CONST, a sub-tree folded): clone the children the node
+        # has now, not the ones it was created with.
+        for field in self.child_fields:
+            child = getattr(self, field)
+            if isinstance(child, Node):
+                new_child = copy_arg(child)
+                new_child.parent = result
+                setattr(result, field, new_child)
+            elif isinstance(child, list):
+                new_children = []
+                for item in child:
+                    new_item = copy_arg(item)
+                    if isinstance(new_item, Node):
+                        new_item.parent = result
+                    new_children.append(new_item)
+                setattr(result, field, new_children)
+
         return result
 
